@@ -119,6 +119,8 @@ type FnCtx struct {
 	nfresh      int
 	nquant      int
 	atCallSeen  map[*AtCall]bool
+	inFieldInv   bool
+	fieldInvDone map[string]bool
 	base        map[string]Term
 	baseSort    map[string]string
 	entry       *State
@@ -435,6 +437,8 @@ type frame struct {
 	old     *State // state at function entry (for top frame)
 	curState *State // state of the block being executed
 	recover bool
+	parent    *frame           // inlined frames: the frame of the caller
+	callBlock *ssa.BasicBlock  // and the block of the call instruction
 }
 
 func (fc *FnCtx) newFrame(fn *ssa.Function, top bool) *frame {
@@ -857,6 +861,7 @@ func (fr *frame) doReturn(b *ssa.BasicBlock, st *State, vals []Val, resVals []ss
 		o := fc.oblig("post", "globalinv."+gi.Name, t.S, reach, pos, nil)
 		o.Src = gi.Src
 	}
+	fc.fieldInvParams(fr.fn, st, false, reach, pos)
 	for idx, cl := range fc.c.Ensures {
 		t, err := env.evalBool(cl.Expr)
 		name := cl.Name
